@@ -348,6 +348,7 @@ type Case struct {
 	DirName      string     `json:"dir_name,omitempty"`       // name of the directory that holds the set (default "w")
 	RmDirOf      int        `json:"rmdir_of,omitempty"`       // 1+index of a protected file whose sub-directory is removed altogether after the damage (its rewrite must fail)
 	StaleNRec    int        `json:"stale_nrec,omitempty"`     // Create is first run with this many blocks (same set ID), leaving stale, partly overlapping volumes behind
+	HighExpVol   bool       `json:"high_exp_vol,omitempty"`   // a volume written by the reference writer holds the recovery block with exponent 65535
 	Procs        int        `json:"procs,omitempty"`          // GOMAXPROCS while the scenario runs (0 = unchanged); with GCreate/GRepair 0 the default goroutine count depends on it
 	SiblingVols  bool       `json:"sibling_vols,omitempty"`   // recovery files replaced by those of a sibling set with the same set ID (same names, lengths, first 16 KiB; different tails)
 }
@@ -590,6 +591,15 @@ func Run(c Case, skipRepair bool) *Obs {
 		ps = append(ps, fs.RecoveryPacket(0), fs.RecoveryPacket(1))
 		os.WriteFile(filepath.Join(dir, base+".zforeign.par2"), par2ref.EncodeAll(ps), 0o644)
 	}
+	if c.HighExpVol {
+		// a conformant volume of this set (reference writer) that holds the recovery block with the highest exponent the format allows
+		own := par2ref.NewSet(c.Slice, o.Originals)
+		if len(own.Slices()) <= 4000 {
+			ps := append([]par2ref.Packet{own.CreatorPacket()}, own.CriticalPackets()...)
+			ps = append(ps, own.RecoveryPacket(65535))
+			os.WriteFile(filepath.Join(dir, base+".zhigh.par2"), par2ref.EncodeAll(ps), 0o644)
+		}
+	}
 	// recovery blocks actually stored beside the index file, as seen by the reference reader
 	o.SurvExps = nil
 	ownID := par2ref.NewSet(c.Slice, o.Originals).SetID()
@@ -660,7 +670,7 @@ func (o *Obs) AllOriginal(snap fsx.Snap) (bool, string) {
 
 // ---------------------------------------------------------------- generators
 
-var nameCorpus = []string{"a.dat", "b file.bin", "docs\\notes.txt", "sub/c.txt", "sub/deep dir/d", "e-1_2.tar.gz", "dir two/f.F", "g", "h~#(1).x", "sub/i.par2.txt", "J.DAT", "k.k.k", "sub2/l", "aux.c", "nul", "sub/Com7.log", "LPT1", "con.txt"}
+var nameCorpus = []string{"a.dat", "b file.bin", "docs\\notes.txt", "sub/c.txt", "sub/deep dir/d", "e-1_2.tar.gz", "dir two/f.F", "g", "h~#(1).x", "sub/i.par2.txt", "J.DAT", "k.k.k", "sub2/l", "aux.c", "nul", "sub/Com7.log", "LPT1", "con.txt", "a../b.txt", "x..y/z", "sub../deep../f"}
 
 var siblingSuffixes = []string{".tmp", "~", ".bak", ".new", ".part", ".1", ".swp", ".orig"}
 
